@@ -6,6 +6,7 @@
   Reference semantics: `Umya/Spec/Grid.lean` (written from the property text).
   Helper lemmas: `Umya/Lemmas/{Refine,Refine2}.lean` on top of the C10 invariant.
 -/
+import Umya.Lemmas.ShiftGen
 import Umya.Lemmas.Refine2
 namespace Umya.Thm.C07
 open Umya.Sheet Umya.Book Umya.Coord Umya.Spec.Grid
@@ -217,5 +218,22 @@ example : ∃ s, run {} [.setVal 2 3 7, .setCell 5 1 4 2, .setVal 2 9 1] = .ok s
   refine ⟨_, rfl, run_coherent [.setVal 2 3 7, .setCell 5 1 4 2, .setVal 2 9 1] {} _ coherent_empty rfl, ?_, ?_, ?_⟩ <;> decide
 
 example : intervalRemove 2 5 3 2 = some (2, 3) ∧ intervalRemove 3 4 3 2 = none ∧ intervalRemove 4 9 3 2 = some (3, 7) := by decide
+
+/-- (T) The scalar shift kernels as they stand in the Rust source NOW (regenerated by the translator
+    on this run) are the ones the model uses: every theorem of this file that mentions
+    `adjIns / adjRem / isRem / adjInsV / adjRemV / isRemV` is a theorem about the current source's kernels. -/
+theorem C07_kernels_match_source (n r o : Nat) :
+    Umya.Gen.adjustment_insert_coordinate n r o = .ok (Umya.Sheet.adjIns n r o) ∧
+    Umya.Gen.adjustment_remove_coordinate n r o = Umya.Sheet.adjRem n r o ∧
+    Umya.Gen.is_remove_coordinate n r o = .ok (Umya.Sheet.isRem n r o) ∧
+    Umya.Gen.row_adjustment_insert_value n r o = .ok (Umya.Sheet.adjInsV n r o) ∧
+    Umya.Gen.row_adjustment_remove_value n r o = Umya.Sheet.adjRemV n r o ∧
+    Umya.Gen.row_is_remove_value n r o = Umya.Sheet.isRemV n r o ∧
+    Umya.Gen.column_adjustment_insert_value n r o = .ok (Umya.Sheet.adjInsV n r o) ∧
+    Umya.Gen.column_adjustment_remove_value n r o = Umya.Sheet.adjRemV n r o ∧
+    Umya.Gen.column_is_remove_value n r o = Umya.Sheet.isRemV n r o :=
+  ⟨Umya.Gen.gen_insert n r o, Umya.Gen.gen_remove n r o, Umya.Gen.gen_is_remove n r o,
+   Umya.Gen.gen_row_insert n r o, Umya.Gen.gen_row_remove n r o, Umya.Gen.gen_row_is_remove n r o,
+   Umya.Gen.gen_col_insert n r o, Umya.Gen.gen_col_remove n r o, Umya.Gen.gen_col_is_remove n r o⟩
 
 end Umya.Thm.C07
